@@ -57,3 +57,45 @@ Example fixed_outcome :
   exists g, run true (init refuted_progs) fixed_sched 0 = (g, None) /\ misuse g = false /\
             map (fun hk => (h_refs hk, h_shut hk)) (hooks g) = [(1, 0); (0, 1)].
 Proof. eexists. split. vm_compute. reflexivity. split; reflexivity. Qed.
+
+(* ---------------------------------------------------------------- the "early unlock" variant *)
+(* Seeded mutation C10-r2-1: Fulfill releases cp.h.mu right after it has locked the first hook
+   of the target chain.  If that hook is an already resolved promise hook (the client passed
+   to Fulfill has a stale c.h), resolveHook unlocks it before it locks the real target, so for
+   a moment no mutex on the path is held while the references are in flight.  Witness (found
+   by the exhaustive racing-point enumeration of the harness on the mutated code):
+     setup    : h0,ct = NewClient; PB,cb = NewPromisedClient; PA,ca = NewPromisedClient;
+                PB.Fulfill(ct); ct.Release()        (cb.h is stale: PB -> h0, h0.refs = 1)
+     thread 1 : PA.Fulfill(cb)        thread 2 : ca.Release()
+   ca.Release walks PA -> PB -> h0 inside the window and takes h0.refs to 0: h0 is shut down
+   although cb still refers to it. *)
+Lemma run_with_reachable : forall stp sched g g', run_with stp g sched = Some g' -> reachable_with stp g g'.
+Proof.
+  intros stp sched. induction sched as [|t r IH]; intros g g' H; simpl in H.
+  - inversion H; subst. constructor.
+  - destruct (stp g t) as [g1|] eqn:E; [|discriminate].
+    specialize (IH g1 g' H). clear H. induction IH.
+    + eapply reachw_step; [constructor|exact E].
+    + eapply reachw_step; eauto.
+Qed.
+
+Definition early_progs : list (list op) :=
+  [ [ONew 0; ONewPromise 1 0; ONewPromise 2 1; OFulfill 0 0; ORelease 0]; [OFulfill 1 1]; [ORelease 2] ]%nat.
+Definition early_sched : list nat := [0;0;0;0;0;0;0;0;0;0;0;1;1;1;2;2;1;2;2;2;2;1;1]%nat.
+
+Example early_unlock_refuted :
+  exists g, reachable_with step_early (init early_progs) g /\ misuse g = false /\
+            (forall th, In th (threads g) -> unfinished th = false) /\
+            exists hk, get_hook g 0%nat = Some hk /\ h_refs hk = 1 /\ h_shut hk = 1.
+Proof.
+  eexists. split.
+  { eapply run_with_reachable with (sched := early_sched). vm_compute. reflexivity. }
+  split. reflexivity. split.
+  - intros th Hin. simpl in Hin. repeat destruct Hin as [<-|Hin]; try reflexivity. contradiction.
+  - eexists. split. reflexivity. split; reflexivity.
+Qed.
+
+(* the repaired variant refuses that schedule (ca.Release cannot get through PA) *)
+Example fixed_blocks_early_schedule :
+  snd (run true (init early_progs) early_sched 0) = Some 17%nat.
+Proof. vm_compute. reflexivity. Qed.
